@@ -142,6 +142,10 @@ def verify(code=None, filename=DEFAULT_STUDENT_FILENAME, report=MAIN_REPORT,
         report[TOOL_NAME]['success'] = False
         report[TOOL_NAME]['ast'] = ast.parse("")
     except SyntaxError as e:
+        if e.lineno is None:
+            # Some errors (e.g., null bytes in the source) carry no position at all
+            e.lineno, e.offset = 1, 1
+            e.filename = e.filename or filename
         syntax_error(e.lineno, e.filename, code, e.offset, e,
                      sys.exc_info(), report=report, muted=muted, enhance=enhance)
         report[TOOL_NAME]['success'] = False
